@@ -68,6 +68,7 @@ def _mk():
 
     # ---- basic indexing (parameter variants of the same slice family)
     add("sl_1_4", "{0}[1:4]", cond=D1, fam="slice")
+    add("sl_1_3", "{0}[1:3]", cond=D1, fam="slice")
     add("sl_2_", "{0}[2:]", cond=D1, fam="slice")
     add("sl__1", "{0}[:1]", cond=D1, fam="slice")
     add("sl_m2", "{0}[-2:]", cond=D1, fam="slice")
@@ -246,6 +247,8 @@ def _mk():
     add("tdot", "{m}.tensordot({0}, {0}, axes=([0], [0]))", exact=False, cond=D1, fam="linalg", rewrite=False)
     add("einsum_tr", "{m}.einsum('ij->ji', {0})", cond="a0.ndim==2", fam="linalg", rewrite=False)
     add("einsum_sum", "{m}.einsum('ij,ij->i', {0}, {0})", exact=False, cond="a0.ndim==2", fam="linalg", rewrite=False)
+    add("einsum_all", "{m}.einsum('ij,ij->', {0}, {0})", exact=False, cond="a0.ndim==2", fam="linalg", rewrite=False)
+    add("einsum_mm_all", "{m}.einsum('ij,kj->', {0}, {0})", exact=False, cond="a0.ndim==2", fam="linalg", rewrite=False)
     add("isin", "{m}.isin({0}, [11, 13, 15])", fam="routine", rewrite=False)
     add("round", "{m}.round({0} / 3, 1)", exact=False, fam="routine", rewrite=False)
     add("tril", "{m}.tril({0})", cond=D2, fam="routine", rewrite=False)
